@@ -182,6 +182,23 @@ class SourceFile:
             raise LostAnchor(f"{self.path}: selector `{selector}` matched {len(found)} items")
         return found[0]
 
+    def closure_as_fn(self, it: Item, n: int, name: str):
+        """the n-th closure (1-based, source order) in the body of fn item `it`, re-headed as a
+        free function `fn <name>(<closure params>) -> <ret> <body>`; the closure must have a block
+        body.  Returns (text, char_start, char_end)."""
+        from .norm import find_closures
+        lo, hi = it.body_open, self.toks[it.body_open].mate
+        cl = [c for c in find_closures(self.src, self.toks) if lo < c[0] < hi]
+        if n < 1 or n > len(cl):
+            raise LostAnchor(f"closure {n}: fn has {len(cl)} closures")
+        b0, b1, s, e, blk = cl[n - 1]
+        if not blk:
+            raise LostAnchor("closure cut needs a block body")
+        params = self.src[self.toks[b0].end:self.toks[b1].start] if b1 > b0 else ""
+        between = self.src[self.toks[b1].end:self.toks[s].start].strip()   # `-> Ret` or empty
+        body = self.src[self.toks[s].start:self.toks[e].end]
+        return f"fn {name}({params.strip()}) {between} {body}", self.toks[b0].start, self.toks[e].end
+
     def text(self, it: Item) -> str:
         return self.src[self.toks[it.t0].start:self.toks[it.t1].end]
 
